@@ -22,6 +22,7 @@ EXPLANATION = (
     "through read_state/write_state, every public operation other than dispatch_with_ctx holds one guard for all its state "
     "accesses, and dispatch_with_ctx takes at most one write guard per request (its function lookup is a separate read "
     "section by design: the callable must run with no lock held)."
+    ' Every caller of set_pointer has seen its pointer non-empty, so the wholesale root replacement arm is unreachable from writes (structural necessary condition of `a root write merges`).'
 )
 ASSUMPTIONS = ["std::sync::RwLock gives reader/writer exclusion", "the functions map is changed only by register_function*, not by requests"]
 
